@@ -1177,3 +1177,128 @@ Proof.
   intros Hd Hlen Hf HN Hx Hdn. rewrite (pipe_rib_answer ops x i f p Hd Hlen Hf HN Hx), Hdn.
   destruct (s_rib (run_sworld ops).1 !! (f, p, x)) as [[s a]|]; [rewrite andb_true_r|]; reflexivity.
 Qed.
+
+(* ================================================================== *)
+(* 8. families: with announcements confined to the four families the RIB knows,
+      the premise f < 4 on the key asked about can be dropped              *)
+(* ================================================================== *)
+
+Definition upd_fams_ok (u : upd) : bool := match u with UEor _ => true | URoutes af _ _ _ _ => af <? 4 end.
+Definition op_fams_ok (o : wop) : bool :=
+  match o with
+  | WMsg _ (MRoute _ (Some u)) | WBgpUpdate _ (Some u) => upd_fams_ok u
+  | _ => true
+  end.
+Definition fams_ok (ops : list wop) : bool := forallb op_fams_ok ops.
+
+Definition rib_fams (rb : irib) : Prop := forall f p x, rb !! (f, p, x) <> None -> f < 4.
+
+Lemma ideal_down_fams rb ws : rib_fams rb -> rib_fams (ideal_down rb ws).
+Proof.
+  intros H f p x Hn. apply (H f p x). rewrite ideal_down_lookup in Hn. intros E. rewrite E in Hn.
+  destruct (ws _); exact (Hn eq_refl).
+Qed.
+
+Lemma ideal_update_fams rb x0 u : upd_fams_ok u = true -> rib_fams rb -> rib_fams (ideal_update rb x0 u).
+Proof.
+  intros Hu H f p x Hn. destruct u as [fam|af ann a wf wd]; cbn [ideal_update] in Hn; [apply (H f p x Hn)|].
+  cbn [upd_fams_ok] in Hu. apply N.ltb_lt in Hu.
+  destruct (decide (f = af)) as [->|Hne]; [exact Hu|]. apply (H f p x). intros E. apply Hn.
+  rewrite fold_ann_lookup, fold_wd_lookup, E.
+  rewrite (fold_ext _ (fun acc _ => acc)), fold_const.
+  2:{ intros c q. destruct (decide ((f, p, x) = (af, q, x0))); [congruence|reflexivity]. }
+  clear Hn. induction wd as [|q wd IH]; cbn [fold_left]; [reflexivity|]. destruct (decide _); exact IH.
+Qed.
+
+Lemma sstep_fams sw o : op_fams_ok o = true -> rib_fams (s_rib sw) -> rib_fams (s_rib (sstep sw o).1).
+Proof.
+  intros Ho H. destruct o as [k|k m|k|b|b u|b|af pfx|k]; try exact H.
+  - destruct (s_sess sw !! k) as [[[ph up] ever]|] eqn:Hs; [|cbn [sstep]; rewrite Hs; exact H].
+    destruct (sstep_msg sw k m _ _ _ Hs) as (_ & _ & Hr & _). rewrite Hr. unfold istep.
+    destruct ph, m as [| |q|q e|q|q [u|]]; try destruct (bool_decide _); cbn [snd]; try exact H;
+      try (apply ideal_down_fams, H); (apply ideal_update_fams; [exact Ho|exact H]).
+  - cbn [sstep]. destruct (s_sess sw !! k); [|exact H]. apply ideal_down_fams, H.
+  - cbn [sstep]. destruct (s_bgp sw !! b) as [c|]; [|exact H]. destruct u as [u|]; [|exact H]. apply ideal_update_fams; [exact Ho|exact H].
+  - cbn [sstep]. destruct (s_bgp sw !! b) as [c|]; [|exact H]. apply ideal_down_fams, H.
+Qed.
+
+Lemma run_sworld_fams ops : fams_ok ops = true -> rib_fams (s_rib (run_sworld ops).1).
+Proof.
+  induction ops as [|o ops IH] using rev_ind; intros Hd.
+  - intros f p x Hn. exfalso. apply Hn. apply lookup_empty.
+  - unfold fams_ok in *. rewrite forallb_app in Hd. apply andb_true_iff in Hd as [Hd Ho].
+    cbn [forallb] in Ho. rewrite andb_true_r in Ho. rewrite run_sworld_snoc. cbn [fst]. apply sstep_fams; auto.
+Qed.
+
+Lemma upd_evs_ann_fam id u key a : upd_fams_ok u = true -> EAnn key a ∈ upd_evs id u -> k_fam key < 4.
+Proof.
+  intros Hu Hin. unfold upd_evs in Hin. apply elem_of_list_fmap in Hin as (pl & Hpl & Hin).
+  destruct u as [fam|af ann a' wf wd]; cbn [payloads_of] in Hin; [inversion Hin|]. cbn [upd_fams_ok] in Hu. apply N.ltb_lt in Hu.
+  apply elem_of_app in Hin as [Hin|Hin]; apply elem_of_list_fmap in Hin as (q & -> & _); cbn in Hpl; [discriminate|].
+  injection Hpl as -> _. exact Hu.
+Qed.
+
+Lemma wstep_ann_fam w o key a : op_fams_ok o = true -> EAnn key a ∈ step_evs (wstep w o).2 -> k_fam key < 4.
+Proof.
+  intros Ho Hin. destruct o as [k|k m|k|b|b u|b|af pfx|k]; cbn [wstep] in Hin.
+  - destruct (find_or_register _ _ _) as [rid r']. inversion Hin.
+  - destruct (w_routers w !! k) as [[rid s]|] eqn:Hr; [|inversion Hin].
+    pose proof (step_routes_from_up_peer (w_reg w) rid s m) as Hps.
+    destruct (sm_step (w_reg w) rid s m) as [[r' s'] out]. cbn [fst snd] in *. rewrite step_evs_step in Hin.
+    destruct out as [| | |[ps|i fo|ms|]]; cbn [out_evs evs_of_update] in Hin; try (inversion Hin; fail).
+    + destruct (Hps ps eq_refl) as (q & u & pe & -> & _ & -> & _). eapply upd_evs_ann_fam; [exact Ho|exact Hin].
+    + apply elem_of_list_singleton in Hin. discriminate.
+    + apply elem_of_list_fmap in Hin as (? & ? & _). discriminate.
+  - destruct (w_routers w !! k) as [[rid s]|]; [|inversion Hin]. cbn [snd] in Hin. rewrite step_evs_step in Hin.
+    apply elem_of_list_fmap in Hin as (? & ? & _). discriminate.
+  - destruct (reg_register (w_reg w)) as [id r']. inversion Hin.
+  - destruct (w_bgp w !! b) as [[id c]|]; [|inversion Hin]. destruct u as [u|]; [|inversion Hin].
+    cbn [snd] in Hin. rewrite step_evs_step in Hin. eapply upd_evs_ann_fam; [exact Ho|exact Hin].
+  - destruct (w_bgp w !! b) as [[id c]|]; [|inversion Hin]. cbn [snd] in Hin. rewrite step_evs_step in Hin.
+    apply elem_of_list_singleton in Hin. discriminate.
+  - inversion Hin.
+  - inversion Hin.
+Qed.
+
+Lemma world_ann_fam ops key a : fams_ok ops = true -> EAnn key a ∈ evs_of (world_updates ops) -> k_fam key < 4.
+Proof.
+  induction ops as [|o ops IH] using rev_ind; intros Hd Hin; [inversion Hin|].
+  unfold fams_ok in *. rewrite forallb_app in Hd. apply andb_true_iff in Hd as [Hd Ho].
+  cbn [forallb] in Ho. rewrite andb_true_r in Ho.
+  rewrite world_updates_snoc, evs_of_app in Hin. apply elem_of_app in Hin as [Hin|Hin]; [apply IH; assumption|].
+  eapply wstep_ann_fam; [exact Ho|exact Hin].
+Qed.
+
+Lemma world_spec_fam ops f p i : fams_ok ops = true -> spec_lookup (evs_of (world_updates ops)) (f, p, i) <> None -> f < 4.
+Proof.
+  intros Hd Hn. unfold spec_lookup in Hn. apply fold_spec_some in Hn as [Hn|[a Ha]]; [congruence|].
+  apply (world_ann_fam ops _ _ Hd Ha).
+Qed.
+
+(* the refinement exactly as the property reads, for every (family, prefix) *)
+Theorem pipe_refines_ideal_all ops x i f p :
+  disciplined ops = true -> fams_ok ops = true -> N.of_nat (length ops) < two32 - 2 ->
+  NoShare (w_ids (run_world ops).1) ->
+  id_of (w_ids (run_world ops).1) x = Some i ->
+  s_rib (run_sworld ops).1 !! (f, p, x) = spec_lookup (evs_of (world_updates ops)) (f, p, i).
+Proof.
+  intros Hd Hf Hlen HN Hx. destruct (N.lt_ge_cases f 4) as [Hlt|Hge]; [apply pipe_refines_ideal; assumption|].
+  destruct (s_rib (run_sworld ops).1 !! (f, p, x)) as [v|] eqn:E1.
+  - pose proof (run_sworld_fams ops Hf f p x) as H. rewrite E1 in H. specialize (H ltac:(discriminate)). lia.
+  - destruct (spec_lookup (evs_of (world_updates ops)) (f, p, i)) as [v|] eqn:E2; [|reflexivity].
+    pose proof (world_spec_fam ops f p i Hf) as H. rewrite E2 in H. specialize (H ltac:(discriminate)). lia.
+Qed.
+
+Theorem pipe_rib_answer_all ops x i f p :
+  disciplined ops = true -> fams_ok ops = true -> N.of_nat (length ops) < two32 - 2 ->
+  NoShare (w_ids (run_world ops).1) ->
+  id_of (w_ids (run_world ops).1) x = Some i ->
+  rib_lookup (w_rib (run_world ops).1) (f, p, i) =
+  match s_rib (run_sworld ops).1 !! (f, p, x) with
+  | Some (s, a) => Some (s && negb (downed (evs_of (world_updates ops)) (f, p, i)), a)
+  | None => None
+  end.
+Proof.
+  intros Hd Hf Hlen HN Hx. rewrite (pipe_refines_ideal_all ops x i f p Hd Hf Hlen HN Hx), world_rib_is_run.
+  apply rib_lookup_spec.
+Qed.
